@@ -236,10 +236,13 @@ def do_quantize(w, d, op, p):
                 if not isinstance(ma, QModuleMixin) or R.module_kind(ma) != kind:
                     w.violate("C08", "structure", "quantize", {"issue": "not_replaced", "kind": kind}, f"{n} ({type(mb).__name__}) was not replaced: {type(ma).__name__}", p)
                     continue
-                # parameters preserved bit for bit, same dtype/device/requires_grad
+                # parameters preserved bit for bit, same dtype/device (the statement lists values, hyper-parameters, dtype,
+                # device and names; quantize() makes every parameter trainable again, which it does not rule out)
                 for pn, (val, dt, dev, rg) in pre_params[n].items():
                     pa = getattr(ma, pn, None)
-                    if pa is None or pa.dtype != dt or pa.device != dev or pa.requires_grad != rg or R.tbytes(pa) != R.tbytes(val):
+                    if pa is not None and pa.requires_grad != rg:
+                        w.probe("requires_grad_reset_by_quantize")
+                    if pa is None or pa.dtype != dt or pa.device != dev or R.tbytes(pa) != R.tbytes(val):
                         w.violate("C08", "structure", "quantize", {"issue": "param_" + pn, "kind": kind}, f"{n}.{pn} not preserved", p)
                         # C13: quantize() must copy the float tensors bit for bit
                         w.violate("C13", "readonly_lib", "quantize", {"issue": "param_" + pn}, f"{n}.{pn} not preserved", p)
@@ -749,6 +752,24 @@ def do_forward(w, d, op, p):
         if R.input_digest(x) != xdig:
             w.violate("C13", "readonly_forward", "forward", {"who": "input"}, "input tensor modified by forward", p)
             w.__dict__.get("input_cache", {}).pop((key, tuple(d.in_shape), d.dtype), None)
+    # ---- the caller rescales / overwrites the tensor the model returned, in place: that tensor is the caller's
+    if c13 and exc is None and op.get("mutate_out") and isinstance(out, torch.Tensor) and not (isinstance(out, torch.Tensor) and out.requires_grad):
+        how = op["mutate_out"]
+        try:
+            with torch.no_grad():
+                if how == "mul":
+                    out *= 4.0
+                elif how == "div":
+                    out /= 8.0
+                elif not R.is_q(out):
+                    out.zero_()
+        except Exception:
+            pass
+        w.probe("returned_output_overwritten_by_caller:" + how)
+        after_dig = all_state_digests(w)
+        for i, dg in post_dig.items():
+            if after_dig.get(i) != dg:
+                w.violate("C13", "readonly_forward", "forward", {"who": "self" if i == d.id else "other", "completed": True, "after": "caller_wrote_into_returned_output"}, f"state of dep {i} changed when the caller rescaled the output returned by dep {d.id} in place ({how})", p)
     d.obs = []
     d.open = []
     if exc is not None:
@@ -944,6 +965,7 @@ def do_deepcopy(w, d, op, p):
     for a in ("arch", "in_shape", "dtype", "init", "wcls", "quantized", "stamp", "frozen", "calibrated", "restarts", "taint"):
         setattr(n, a, getattr(d, a))
     n.qcfg = copy.deepcopy(d.qcfg)
+    n.__dict__["expect_rg"] = dict(d.__dict__.get("expect_rg", {}))
     n.memo = dict(d.memo)
     n.oplog = list(d.oplog) + ["deepcopy"]
     n.ema = copy.deepcopy(d.ema)
@@ -1587,11 +1609,15 @@ def check_grads(w, d, recs, p):
     if frozen:
         if mod.weight.grad is not None:
             w.violate("C11", "nograd", "train", dict(base, which="frozen_weight"), f"{rec.name}: frozen weight received a gradient", p)
-    elif mod.weight.requires_grad:
-        cmp("weight", mod.weight.grad, sum(x[1] for x in refs), sum(x[1] for x in mags))
     else:
-        base["weight_trainable"] = False
-    if mod.bias is not None and mod.bias.requires_grad:
+        # what the caller made trainable (on the quantized module, or on the float one before quantize()) is
+        # trainable; everything is by default
+        want_w, want_b = d.__dict__.get("expect_rg", {}).get(rec.name, (True, True))
+        if want_w:
+            cmp("weight", mod.weight.grad, sum(x[1] for x in refs), sum(x[1] for x in mags))
+        else:
+            base["weight_trainable"] = False
+    if mod.bias is not None and d.__dict__.get("expect_rg", {}).get(rec.name, (True, True))[1]:
         cmp("bias", mod.bias.grad, sum(x[2] for x in refs), sum(x[2] for x in mags))
     for sn in ("input_scale", "output_scale"):
         sc = getattr(mod, sn)
@@ -1800,21 +1826,26 @@ def do_refill_forward(w, d, op, p):
 
 def do_set_trainable(w, d, op, p):
     """Bias-only (or weight-only) fine-tuning: the caller switches requires_grad of the float parameters of the
-    un-frozen quantized modules. Gradients of what stays trainable must be unaffected (C11)."""
+    un-frozen quantized modules - or of the float modules before quantize(), which must hand the flags on.
+    Gradients of what stays trainable must be unaffected (C11)."""
     from optimum.quanto.tensor import QTensor
 
-    if not d.quantized:
-        return "skipped"
+    exp = d.__dict__.setdefault("expect_rg", {})
     n = 0
-    for name, m in qmodules(d.model):
-        if isinstance(m.weight, QTensor) or m.weight is None:
+    if d.quantized:
+        mods = qmodules(d.model)
+    else:
+        mods = [(name, m) for name, m in d.model.named_modules() if isinstance(m, (torch.nn.Linear, torch.nn.Conv2d))]
+    for name, m in mods:
+        if m.weight is None or isinstance(m.weight, QTensor):
             continue
         m.weight.requires_grad_(bool(op.get("weights", True)))
         if getattr(m, "bias", None) is not None:
             m.bias.requires_grad_(bool(op.get("biases", True)))
+        exp[name] = (bool(op.get("weights", True)), bool(op.get("biases", True)))
         n += 1
     if n:
-        w.probe("requires_grad_switched:" + ("w" if op.get("weights", True) else "-") + ("b" if op.get("biases", True) else "-"))
+        w.probe("requires_grad_switched:" + ("w" if op.get("weights", True) else "-") + ("b" if op.get("biases", True) else "-") + ("" if d.quantized else ":before_quantize"))
     return "ok" if n else "skipped"
 
 
